@@ -7,7 +7,7 @@ def spake_inv (x : ℤ) : ℤ :=
   ((x ^ (((Q : ℤ) - (2 : ℤ))).toNat) % (Q : ℤ))
 
 def spake_xrecover (y : ℤ) : ℤ :=
-  let xx := (((y * y) - (1 : ℤ)) * (spake_inv (((spake_d * y) * y) + (1 : ℤ))))
+  let xx := (((y * y) + (1 : ℤ)) * (spake_inv (((spake_d * y) * y) + (1 : ℤ))))
   let x := ((xx ^ ((((Q : ℤ) + (3 : ℤ)) / (8 : ℤ))).toNat) % (Q : ℤ))
   let x := (if ((((x * x) - xx) % (Q : ℤ)) ≠ (0 : ℤ)) then ((x * spake_I) % (Q : ℤ)) else x)
   let x := (if ((x % (2 : ℤ)) ≠ (0 : ℤ)) then ((Q : ℤ) - x) else x)
